@@ -8,6 +8,11 @@ CLAIMED = {
    note="Assumed, not proved: etcd/raft's own safety under these obligations; message faults, multi-replica histories and convergence are outside a sequential contract proof. The WAL observers used by the freshness test (InitialState/Snapshot/LastIndex) are assumed contracts here (C06 is about the store).",
    tech="contract-based typestate verification (ghost state + call hooks) against an assumed dependency contract, SMT",
    ref="DESIGN.md §4 C05"),
+ "C06": dict(
+   text="Proof (all group ids, all indices, 64-bit vectors) of the key layout the store's isolation and ordering rest on: parseIndex(entryKey(i)) = i, the first 16 bytes of an entry key and bytes 2..17 of the hard-state/snapshot keys are the group id, lengths 24/18/18, 'hs' vs 'ss' tags, and the lemma that a key carrying the id bytes of two groups belongs to one group; plus the snapshot-install protocol of Save as typestate on every path: the stored log is wiped before the marker entry is written, entries of the same Ready are written after it, the cached last index is reset to the snapshot index. PLUS a BOUNDED stand-in, labelled as such and not counted as proved: differential comparison of every observer (FirstIndex, LastIndex, Term, Entries under three size limits, Snapshot, InitialState) against etcd/raft MemoryStorage over all legal call sequences up to length 4 (thorough: 6) incl. conflicting overwrites, installs inside/beyond the log, compaction, reopen with cold cache, a neighbour group in the same database, and DeleteGroup followed by re-creation.",
+   note="Badger itself (transactions, write batches applying operations in order, prefix iteration) is outside the contract language and assumed; that is why equivalence with the reference storage is bounded, not proved. writeEntries/writeSnapshot/deleteEntries* are assumed contracts inside the Save proof. Order-preservation of big-endian keys under bytes.Compare is not machine-checked. Theoretical observation (not a violation of anything the code can produce): an entry prefix scan of a group whose id starts with the bytes 'hs'/'ss' followed by 14 bytes of another group's id would also meet that group's 18-byte key; ids are random UUIDs.",
+   tech="contract-based deductive verification in QF_BV for the key layout + call-order typestate on Save; labelled bounded differential stand-in for the storage contract",
+   ref="DESIGN.md §4 C06"),
  "C08": dict(
    text="Proof (unbounded) of the clauses a per-function contract can carry: every length or count Save and Metadata.save write into a fixed-width field is converted losslessly under the stated size preconditions (a conversion that can truncate is a failed obligation); Load and Metadata.load/loadKV obtain every fixed-size token through io.ReadFull / binary.Read, never a bare Read (so the parse cannot depend on how the reader fragments the stream); a successful Load leaves sixteen freshly made shard maps (no stale items) and a byte counter equal to the sum of the loaded items' sizes (no stale counter), also on the empty-snapshot path. PLUS a BOUNDED stand-in, labelled as such and not counted as proved: exhaustive Save/Load round trips of every state reachable in <= 4 (thorough: 5) operations, fresh and used targets, three reader fragmentations, header on/off, comparing ids, vector bits, metadata, levels, live links, entry point and unread bytes.",
    note="The relation 'bytes written by Save = bytes read by Load' (stream grammar) is not expressible in the contract language - that half is bounded, not proved. Assumed: encoding/binary.Read/Write and io.ReadFull contracts (full reads, fixed sizes); graph shape wfGraph is a precondition of Save (established by the index operations, C01); Load's behaviour on corrupt streams (negative level, unknown ids) is outside the property and its panics are not obligations here.",
